@@ -217,6 +217,8 @@ func buildType(d Dialect, t Type, enums map[string]*schema.EnumType) schema.Type
 		return &postgres.SerialType{T: t.T}
 	case CUser:
 		return &postgres.UserDefinedType{T: t.T}
+	case CNet:
+		return &postgres.NetworkType{T: t.T}
 	case CArray:
 		return &postgres.ArrayType{T: t.T + "[]", Type: buildType(d, Type{Class: CString, T: t.T}, enums)}
 	}
